@@ -41,7 +41,7 @@ def gen_case(rng, max_ops):
             names = sorted(set(sp))
             pick = [n for n in names if rng.random() < 0.6] or [names[0]]
             mask = [s in pick for s in sp]
-            ops.append(['F', k, mask])
+            ops.append(['F', k, mask, str(rng.choice(['list', 'list', 'tuple', 'set', 'frozenset', 'dict-keys', 'str', 'array']))])
             shapes.append((T, [s for s, b in zip(sp, mask) if b]))
         elif r < 0.90:
             def ri():
